@@ -1,3 +1,4 @@
+import GitSizer.Proofs.GraphRun7
 import GitSizer.Proofs.GraphCommits
 import GitSizer.Proofs.GraphTags
 /-! # C03 — History depth and tag depth equal the longest chains -/
@@ -53,5 +54,19 @@ theorem tag_depth_unfold (r : Repo) (wf : TagsWF r) (t o : Nat) (h : r.tagRef t 
 /-- non-vacuity: a criss-cross merge history with two roots -/
 def demo : Repo := [.tree 0 [], .commit 1 0 [], .commit 1 0 [], .commit 1 0 [1, 2], .commit 1 0 [2, 1], .commit 1 0 [3, 4]]
 example : depthN demo 5 = 3 := by decide +kernel
+
+
+/-- **Whole-run depth maxima.** After any valid run `MaxHistoryDepth` is the (saturated) length of
+    the longest parent chain among the delivered commits and `MaxTagDepth` the longest tag chain
+    among the delivered tags (`depthN`, `tagDepthN`: `Proofs/Depth`, `chain_le_depth` /
+    `exists_chain_of_depth` identify them with chains). -/
+theorem depth_maxima_exact (r : Repo) (ops : List Op) (v : ValidRun r ops) :
+    ∃ st, runOps r ops {} = .ok st ∧
+      st.hist.MaxHistoryDepth.toNat = min (maxList ((commitsOf ops).map fun c => depthN r c)) (2^32 - 1) ∧
+      st.hist.MaxTagDepth.toNat = min (maxList ((tagsOf ops).map fun g => tagDepthN r g)) (2^32 - 1) := by
+  obtain ⟨st, h, _, res⟩ := v.result
+  have c := res.commits; have g := res.tags
+  simp only [commitNums, tagNums, List.cons.injEq, and_true] at c g
+  exact ⟨st, h, c.2.2.2.1, g.2⟩
 
 end GitSizer.C03
